@@ -722,7 +722,7 @@ func TestC43StructOf(t *testing.T) {
 		t.Skip()
 	}
 
-	kit.SetChecks(20_000, 100_000)
+	kit.SetChecks(60_000, 300_000)
 	rapid.Check(t, func(rt *rapid.T) {
 		c := c43StructOfCase{Mode: rapid.SampledFrom([]string{"state", "state", "spec"}).Draw(rt, "mode")}
 		allowBad := rapid.IntRange(0, 2).Draw(rt, "allowBad") == 0
@@ -976,7 +976,7 @@ func TestC43Generated(t *testing.T) {
 		t.Skip()
 	}
 
-	kit.SetChecks(30_000, 150_000)
+	kit.SetChecks(100_000, 400_000)
 	rapid.Check(t, func(rt *rapid.T) {
 		// rapid favours small numbers; spread them over the catalogue (which is
 		// ordered leaves, wrappers, deep) with a multiplier coprime to its size
